@@ -188,6 +188,8 @@ def run_unit(path, scratch, mutate=None, extra_name=''):
         text = ''
         if loc.get('file', '').endswith('unit.c') and 0 < line <= len(clines):
             text = norm_text(clines[line - 1])
+        if cls == 'assertion':
+            text = norm_text(desc)      # user assertions are named by their message, which the spec controls
         o = {'id': pid, 'class': cls, 'status': r.get('status'), 'description': desc, 'line': line,
              'function': loc.get('function', ''), 'text': text,
              'name': '%s/%s/%s' % (res.name, cls, text or norm_text(desc))}
